@@ -26,6 +26,17 @@
     ((cqv_alloc_failed && !__CPROVER_loop_entry(cqv_alloc_failed)) ==> (d)->status != CARQUET_OK))
 
 
+/* element-wise instance of the well-formedness precondition of the metadata tree (counts >= 0, valid enumerators) */
+#define CQV_WF_ASSUME(c) __CPROVER_assume(c)
+
+/* SchemaElement.name is 'required' in parquet.thrift; carquet writes it only when non-NULL.  The strong contract
+ * (any element) is the default; -DCQV_SE_NAMED restricts to elements that have a name (second, weaker job). */
+#ifdef CQV_SE_NAMED
+#define CQV_SE_NAME_REQ(e) ((e)->name != NULL)
+#else
+#define CQV_SE_NAME_REQ(e) 1
+#endif
+
 /* loop contracts are compiled in only for the function under proof (see contracts/ptypes.ovl) */
 #ifdef CQV_FN_parse_statistics
 #define LC_parse_statistics(...) __VA_ARGS__
